@@ -362,6 +362,9 @@ type objVal struct {
 	cx *objCtx
 	v  ssa.Value
 	at ssa.Instruction // the point at which v is looked at
+	// sub != nil: the part v.f1.f2… (field numbers) of the local object v (an *ssa.Alloc), a struct
+	// nested BY VALUE whose contents have not been looked up yet (see allocField / force)
+	sub []int
 }
 
 type objView struct {
@@ -506,18 +509,84 @@ func (o *objView) closed(cx *objCtx, a *ssa.Alloc, at ssa.Instruction, seen map[
 	return visit(a, true)
 }
 
-// fieldOfAlloc: the values field number fi of the local object a may hold when `at` executes:
-// those written by the stores to that field (directly, through a pointer that can only point to
-// a, or as part of a store of the whole struct) that can reach `at` on the walk without passing
-// another such store; the zero value when `at` can be reached from the allocation without one.
+// objFieldChain: addr = &root.f1.f2…fk where every step but the first selects inside a struct nested
+// by value: the root (not itself such a selection) and the field numbers.
+func objFieldChain(addr ssa.Value) (root ssa.Value, path []int) {
+	for {
+		fa, ok := addr.(*ssa.FieldAddr)
+		if !ok {
+			return addr, path
+		}
+		path = append([]int{fa.Field}, path...)
+		addr = fa.X
+	}
+}
+
+// pathField: the field the path of field numbers leads to in st, and the names on the way.
+func pathField(st *types.Struct, path []int) (fv *types.Var, names []string) {
+	for k, fi := range path {
+		if st == nil || fi < 0 || fi >= st.NumFields() {
+			return nil, nil
+		}
+		fv = st.Field(fi)
+		names = append(names, fv.Name())
+		if k+1 < len(path) {
+			st, _ = fv.Type().Underlying().(*types.Struct)
+		}
+	}
+	return fv, names
+}
+
+// fieldOfAlloc: field number fi of the local object a (see fieldOfAllocPath).
 func (o *objView) fieldOfAlloc(cx *objCtx, a *ssa.Alloc, fi int, at ssa.Instruction, depth int) []objVal {
+	return o.fieldOfAllocPath(cx, a, []int{fi}, at, depth)
+}
+
+// allocField: field fi of the part a.sub of the local object a.  A struct nested by value is not
+// looked up yet: the answer is the part itself, so that a store to one of ITS fields
+// (`x.Inner.F = v`) is found when F is asked for.
+func (o *objView) allocField(cx *objCtx, a *ssa.Alloc, sub []int, fi int, at ssa.Instruction, depth int) []objVal {
+	path := append(append([]int{}, sub...), fi)
+	fv, _ := pathField(structOf(a.Type()), path)
+	if fv == nil {
+		o.fail("not a struct")
+		return nil
+	}
+	if _, byValue := fv.Type().Underlying().(*types.Struct); byValue {
+		return []objVal{{cx: cx, v: a, at: at, sub: path}}
+	}
+	return o.fieldOfAllocPath(cx, a, path, at, depth)
+}
+
+// force looks up the parts that allocField left open.
+func (o *objView) force(xs []objVal, depth int) []objVal {
+	var out []objVal
+	for _, x := range xs {
+		if x.sub == nil {
+			out = append(out, x)
+			continue
+		}
+		out = append(out, o.fieldOfAllocPath(x.cx, x.v.(*ssa.Alloc), x.sub, x.at, depth+1)...)
+	}
+	return out
+}
+
+// fieldOfAllocPath: the values the part a.f1.f2… (path: field numbers, every step after the first
+// inside a struct nested by value) of the local object a may hold when `at` executes: those
+// written by the stores to that part (directly, through a pointer that can only point to a, or as
+// part of a store of an enclosing struct or of the whole object) that can reach `at` on the walk
+// without passing another such store; the zero value when `at` can be reached from the allocation
+// without one.  A store to a part OF the part asked for (the value is put together piecemeal) is
+// refused.
+func (o *objView) fieldOfAllocPath(cx *objCtx, a *ssa.Alloc, path []int, at ssa.Instruction, depth int) []objVal {
 	o.steps++
 	if depth > 8 || o.steps > 4000 {
 		o.fail("too deep")
 		return nil
 	}
 	st := structOf(a.Type())
-	if st == nil || fi < 0 || fi >= st.NumFields() {
+	fv, names := pathField(st, path)
+	if st == nil || fv == nil {
 		o.fail("not a struct")
 		return nil
 	}
@@ -525,10 +594,9 @@ func (o *objView) fieldOfAlloc(cx *objCtx, a *ssa.Alloc, fi int, at ssa.Instruct
 		o.fail("the object " + o.r.D.allocName(a) + " can be written by code outside " + FuncName(cx.fn))
 		return nil
 	}
-	fv := st.Field(fi)
 	type cand struct {
-		st    *ssa.Store
-		whole bool
+		st   *ssa.Store
+		rest []string // the fields still to select in the value stored (a store of an enclosing struct)
 	}
 	cands := map[ssa.Instruction]cand{}
 	for _, b := range cx.fn.Blocks {
@@ -541,32 +609,48 @@ func (o *objView) fieldOfAlloc(cx *objCtx, a *ssa.Alloc, fi int, at ssa.Instruct
 				continue
 			}
 			if s.Addr == ssa.Value(a) {
-				cands[s] = cand{s, true}
+				cands[s] = cand{s, names}
 				continue
 			}
-			fa, ok := s.Addr.(*ssa.FieldAddr)
-			if !ok || fieldOf(fa) != fv {
+			root, q := objFieldChain(s.Addr)
+			if rs := structOf(root.Type()); rs == nil || !types.Identical(rs, st) {
 				continue
 			}
-			if fa.X == ssa.Value(a) {
-				cands[s] = cand{s, false}
+			// q against path: a prefix (the part or an enclosing struct is stored), an extension
+			// (a piece of the part is stored), or something else
+			n := len(q)
+			if len(path) < n {
+				n = len(path)
+			}
+			same := true
+			for k := 0; k < n; k++ {
+				same = same && q[k] == path[k]
+			}
+			if !same {
 				continue
 			}
-			ps, ok := o.pointees(cx, fa.X, s, depth+1)
-			if !ok {
-				continue // not a pointer to a local object: a is closed, so it cannot point to a
+			if root != ssa.Value(a) {
+				ps, ok := o.pointees(cx, root, s, depth+1)
+				if !ok {
+					continue // not a pointer to a local object: a is closed, so it cannot point to a
+				}
+				hit := false
+				for _, p := range ps {
+					hit = hit || p == a
+				}
+				if hit && len(ps) > 1 {
+					o.fail("a store at " + o.r.Where(s) + " may or may not go to " + o.r.D.allocName(a))
+					return nil
+				}
+				if !hit {
+					continue
+				}
 			}
-			hit := false
-			for _, p := range ps {
-				hit = hit || p == a
-			}
-			if hit && len(ps) > 1 {
-				o.fail("a store at " + o.r.Where(s) + " may or may not go to " + o.r.D.allocName(a))
+			if len(q) > len(path) {
+				o.fail(strings.Join(names, ".") + " of " + o.r.D.allocName(a) + " is put together piecemeal (store at " + o.r.Where(s) + ")")
 				return nil
 			}
-			if hit {
-				cands[s] = cand{s, false}
-			}
+			cands[s] = cand{s, names[len(q):]}
 		}
 	}
 	// which of them (and the initial zero) are still in force at `at`
@@ -619,14 +703,22 @@ func (o *objView) fieldOfAlloc(cx *objCtx, a *ssa.Alloc, fi int, at ssa.Instruct
 		if !visible(in) {
 			continue
 		}
-		if !c.whole {
+		if len(c.rest) == 0 {
 			// (a pointer found in the field is followed to the object as it is at `at`, not as it
 			// was when the pointer was stored)
 			out = append(out, objVal{cx: cx, v: c.st.Val, at: at})
 			continue
 		}
-		// a copy of a whole struct: a value read from memory is looked at where it is read
-		out = append(out, o.fieldOf(objVal{cx: cx, v: c.st.Val, at: at}, fv.Name(), depth+1)...)
+		// a copy of an enclosing struct: a value read from memory is looked at where it is read
+		cur := []objVal{{cx: cx, v: c.st.Val, at: at}}
+		for _, name := range c.rest {
+			var next []objVal
+			for _, x := range cur {
+				next = append(next, o.fieldOf(x, name, depth+1)...)
+			}
+			cur = next
+		}
+		out = append(out, o.force(cur, depth+1)...)
 	}
 	return out
 }
@@ -642,6 +734,12 @@ func (o *objView) fieldOf(x objVal, name string, depth int) []objVal {
 	}
 	cx := x.cx
 	st := structOf(x.v.Type())
+	if x.sub != nil {
+		st = nil
+		if fv, _ := pathField(structOf(x.v.Type()), x.sub); fv != nil {
+			st, _ = fv.Type().Underlying().(*types.Struct)
+		}
+	}
 	if st == nil {
 		o.fail("field " + name + " of a value that is not a struct: " + o.r.D.D(x.v))
 		return nil
@@ -653,7 +751,7 @@ func (o *objView) fieldOf(x objVal, name string, depth int) []objVal {
 	}
 	switch v := x.v.(type) {
 	case *ssa.Alloc:
-		return o.fieldOfAlloc(cx, v, fi, x.at, depth+1)
+		return o.allocField(cx, v, x.sub, fi, x.at, depth+1)
 	case *ssa.Const:
 		if v.Value == nil {
 			if _, isPtr := v.Type().Underlying().(*types.Pointer); isPtr {
@@ -667,7 +765,7 @@ func (o *objView) fieldOf(x objVal, name string, depth int) []objVal {
 			if ps, ok := o.pointees(cx, v.X, v, 0); ok {
 				var out []objVal
 				for _, p := range ps {
-					out = append(out, o.fieldOfAlloc(cx, p, fi, v, depth+1)...)
+					out = append(out, o.allocField(cx, p, nil, fi, v, depth+1)...)
 				}
 				return out
 			}
@@ -755,6 +853,13 @@ func (r *Run) Built(fn *ssa.Function, reach *Reach, at ssa.Instruction, v ssa.Va
 			return nil, nil, "no value found for " + name
 		}
 		cur = next
+	}
+	cur = o.force(cur, 0)
+	if o.why != "" {
+		return nil, nil, o.why
+	}
+	if len(cur) == 0 {
+		return nil, nil, "no value found for " + path
 	}
 	seen := map[string]bool{}
 	for _, x := range cur {
